@@ -286,13 +286,18 @@ func (q quadCubic) hess(x []float64, i, j int) float64 {
 	return q.b[i][j]
 }
 
-func makeSettings(fo firstOrder, c multiCase, origin float64) (*fd.Settings, fd.Formula, float64) {
+// makeSettings builds the Settings of a case. Hessian and CrossLaplacian use
+// the square root of the formula's default step ("derivatives of derivatives"),
+// so sqrtStep stores h^2 there; Settings.Step is used as given by all.
+func makeSettings(fo firstOrder, c multiCase, origin float64, sqrtStep bool) (*fd.Settings, fd.Formula, float64) {
 	h := math.Ldexp(1, c.StepExp)
 	formula := fo.f()
 	formula.Stencil = append([]fd.Point(nil), formula.Stencil...)
 	set := &fd.Settings{Formula: formula, Concurrent: c.Conc}
 	if c.StepIn == 0 {
 		set.Step = h
+	} else if sqrtStep {
+		set.Formula.Step = h * h
 	} else {
 		set.Formula.Step = h
 	}
@@ -346,7 +351,7 @@ func checkMulti(c multiCase) *vk.Failure {
 	case 0: // Gradient on a quadratic: exact gradient + b_ii h M2
 		fo := firstOrders[c.Formula]
 		q := newQuadCubic(r, n, false)
-		set, formula, h := makeSettings(fo, c, q.eval(x))
+		set, formula, h := makeSettings(fo, c, q.eval(x), false)
 		f := func(t []float64) float64 { calls.Add(1); return q.eval(t) }
 		dst := make([]float64, n)
 		for i := range dst {
@@ -447,7 +452,7 @@ func checkMulti(c multiCase) *vk.Failure {
 	case 2: // Hessian on quadratic + separable cubic: exact Hessian + 6 d_i h M2 on the diagonal
 		fo := firstOrders[c.Formula]
 		q := newQuadCubic(r, n, true)
-		set, formula, h := makeSettings(fo, c, q.eval(x))
+		set, formula, h := makeSettings(fo, c, q.eval(x), true)
 		f := func(t []float64) float64 { calls.Add(1); return q.eval(t) }
 		var dst *mat.SymDense
 		if c.StepExp%2 == 0 {
@@ -505,7 +510,7 @@ func checkMulti(c multiCase) *vk.Failure {
 	case 3: // Laplacian on quadratic + separable cubic: sum(2 b_ii + 6 d_i x_i) + sum d_i h M3
 		so := secondOrders[c.Formula%3]
 		q := newQuadCubic(r, n, true)
-		set, formula, h := makeSettings(so, c, q.eval(x))
+		set, formula, h := makeSettings(so, c, q.eval(x), false)
 		f := func(t []float64) float64 { calls.Add(1); return q.eval(t) }
 		got := fd.Laplacian(f, xin, set)
 		want := 0.0
@@ -558,7 +563,7 @@ func checkMulti(c multiCase) *vk.Failure {
 			}
 			return acc
 		}
-		set, formula, h := makeSettings(fo, c, eval(x, y))
+		set, formula, h := makeSettings(fo, c, eval(x, y), true)
 		f := func(u, v []float64) float64 { calls.Add(1); return eval(u, v) }
 		yin := append([]float64(nil), y...)
 		got := fd.CrossLaplacian(f, xin, yin, set)
